@@ -3,6 +3,12 @@ use crate::runner::{Arm, Ctx};
 #[cfg(feature = "full")]
 pub mod c01;
 #[cfg(feature = "full")]
+pub mod c02;
+#[cfg(feature = "full")]
+pub mod c03;
+#[cfg(feature = "full")]
+pub mod c04;
+#[cfg(feature = "full")]
 pub mod c05;
 #[cfg(feature = "full")]
 pub mod c06;
@@ -84,6 +90,9 @@ pub fn all() -> Vec<Property> {
     #[cfg(feature = "full")]
     {
         v.push(Property { id: "C01", level: "exploration", build: c01::build });
+        v.push(Property { id: "C02", level: "fault_enumeration", build: c02::build });
+        v.push(Property { id: "C03", level: "fault_enumeration", build: c03::build });
+        v.push(Property { id: "C04", level: "fault_enumeration", build: c04::build });
         v.push(Property { id: "C05", level: "exploration", build: c05::build });
         v.push(Property { id: "C06", level: "exploration", build: c06::build });
         v.push(Property { id: "C07", level: "exploration", build: c07::build });
@@ -132,6 +141,10 @@ pub fn child_main(args: &[String]) -> i32 {
         #[cfg(feature = "full")]
         "--child-parse" => c32::child_parse(&args[1]),
         "--child-c38" => c38::child_scalar(&args[1], &args[2]),
+        #[cfg(feature = "full")]
+        "--child-crash-history" => crate::crash::child_history(&args[1], &args[2], &args[3], &args[4]),
+        #[cfg(feature = "full")]
+        "--child-crash-open" => crate::crash::child_open(&args[1], &args[2], &args[3]),
         "--child-c23" => crate::det::child_main(&args[1]),
         #[cfg(feature = "full")]
         "--child-c22" => c22::child_main(&args[1]),
